@@ -66,13 +66,13 @@ func (fun *Fun1i2) adjoin(b []byte) []byte {
 	b = append(b, fun.name...)
 	offset := fun.x + 2
 	if fun.children[0].newline() {
-		b = append(b, indent[:fun.children[0].left()+1]...)
+		b = newlineIndent(b, fun.children[0].left())
 	} else {
 		b = append(b, ' ')
 	}
 	b = fun.children[0].adjoin(b)
 	for _, n := range fun.children[1:] {
-		b = append(b, indent[:offset+1]...)
+		b = newlineIndent(b, offset)
 		b = n.adjoin(b)
 	}
 	return append(b, ')')
